@@ -59,6 +59,16 @@ def main():
             bad = lib.assumptions_acceptable(pa["assumptions"])
             if bad:
                 broken.append("unacceptable assumptions: " + "; ".join(bad))
+    chk_note = "coqchk: thorough tier only"
+    if ok and tier == "thorough":
+        cok, cax, clog = lib.coqchk(pid)
+        chk_note = "coqchk -o FV.%s: %s; axioms: %s" % (pid, "modules checked" if cok else "FAILED", cax)
+        if not cok:
+            broken.append("coqchk rejects the compiled development: " + clog[-400:])
+        elif cax != "<none>":
+            badax = [a.strip() for a in cax.split("\n") if a.strip() and not any(x in a for x in lib.STDLIB_AXIOMS)]
+            if badax:
+                broken.append("coqchk lists unacceptable axioms: " + "; ".join(badax)[:300])
     obligations = len(pa["theorems"]) if pa else len(lib.theorem_names(pid))
     discharged = obligations if (pa and pa["ok"] and not broken) else 0
     # ---- 3. executable model
@@ -103,7 +113,7 @@ def main():
             nviol += 1
     # ---- 7. evidence
     assum = (pa or {}).get("assumptions", {})
-    tb = ["Coq 8.16.1 kernel (coqc; vm_compute used in Examples only; native_compute not used)",
+    tb = ["Coq 8.16.1 kernel (coqc; vm_compute used in Examples only; native_compute not used)", chk_note,
           "axioms per theorem (Print Assumptions): " +
           ("; ".join("%s: %s" % (k, "closed under the global context" if v == ["closed"] else " ".join(v))
                      for k, v in assum.items()) or "n/a"),
